@@ -11,12 +11,54 @@ import threading
 import numpy as np
 
 
+import ctypes as _ct
+
+
+def _make_peekers():
+    """Cheap fingerprints of the two process-global Mersenne Twisters (position + a few
+    key words), validated against the public state API; fall back to full copies."""
+    try:
+        bg = np.random.mtrand._rand._bit_generator
+        arr = (_ct.c_uint32 * 626).from_address(bg.ctypes.state_address)
+        st = bg.state["state"]
+        assert int(arr[624]) == int(st["pos"]) and int(arr[0]) == int(st["key"][0])
+
+        def np_peek():
+            return (arr[624], arr[0], arr[1], arr[311], arr[623])
+    except Exception:  # pragma: no cover
+        def np_peek():
+            s = np.random.get_state()
+            return (s[2], int(s[1][0]), int(s[1][1]), int(s[1][311]), int(s[1][623]))
+    try:
+        inst = random._inst
+        base = id(inst) + 16
+        idx = _ct.c_int.from_address(base)
+        words = (_ct.c_uint32 * 624).from_address(base + 4)
+        g = inst.getstate()[1]
+        assert idx.value == g[-1] and words[0] == g[0] and words[623] == g[623]
+
+        def py_peek():
+            return (idx.value, words[0], words[1], words[311], words[623])
+    except Exception:  # pragma: no cover
+        def py_peek():
+            g = random.getstate()[1]
+            return (g[-1], g[0], g[1], g[311], g[623])
+    return np_peek, py_peek
+
+
+_np_peek, _py_peek = _make_peekers()
+
+
 class SimAbort(BaseException):
     """Raised inside parked tasks when a run is torn down (unwinds library code)."""
 
 
 class Deadlock(Exception):
     """No runnable task and no pending timer."""
+
+
+class Overdue(Exception):
+    """A bounded-time operation did not finish by its simulated-time deadline."""
 
 
 class StepCap(Exception):
@@ -98,9 +140,11 @@ class Sim:
         self.tasks.append(self.main)
         self.current = self.main
         self.speed = {}
-        self.main.np_state = None
+        self._init_global_rng()
         self._seq = 0
         self.on_yield = None  # optional callback(sim) at every yield (invariants)
+        self.watchdog = None  # simulated-time deadline for the op the main task is in
+        self.overdue = False
 
     # ---- logging (never draws from a PRNG, never reads a real clock)
     def log(self, ev):
@@ -113,16 +157,32 @@ class Sim:
             return lo
         return lo + (hi - lo) * self.rng.random()
 
-    # ---- per-"process" global RNG state emulation
+    # ---- per-"process" global RNG state emulation (cheap: change detection by peeking
+    #      at the Mersenne-Twister position / first key words; full copies only on change)
+    def _init_global_rng(self):
+        st = np.random.get_state()
+        ps = random.getstate()
+        self.main.np_state, self.main.py_state = st, ps
+        self._np_loaded, self._np_key = st, _np_peek()
+        self._py_loaded, self._py_key = ps, _py_peek()
+
     def _leave(self, t):
-        t.np_state = np.random.get_state()
-        t.py_state = random.getstate()
+        k = _np_peek()
+        if k != self._np_key:
+            t.np_state = np.random.get_state()
+            self._np_loaded, self._np_key = t.np_state, k
+        k = _py_peek()
+        if k != self._py_key:
+            t.py_state = random.getstate()
+            self._py_loaded, self._py_key = t.py_state, k
 
     def _enter(self, t):
-        if t.np_state is not None:
+        if t.np_state is not self._np_loaded:
             np.random.set_state(t.np_state)
-        if t.py_state is not None:
+            self._np_loaded, self._np_key = t.np_state, _np_peek()
+        if t.py_state is not self._py_loaded:
             random.setstate(t.py_state)
+            self._py_loaded, self._py_key = t.py_state, _py_peek()
 
     # ---- scheduling core
     def _pick(self):
@@ -138,6 +198,12 @@ class Sim:
     def _handoff(self, me, final=False):
         nxt = self._pick()
         self.stats["switches"] += 1
+        if (self.watchdog is not None and nxt is not None and nxt.wake is not None
+                and max(self.now, nxt.wake) > self.watchdog and not self.main.done):
+            self.watchdog = None
+            self.overdue = True
+            nxt = self.main
+            self.main.wake = self.now
         if nxt is None:
             self.deadlocked = True
             nxt = self.main
@@ -150,6 +216,9 @@ class Sim:
             if self.deadlocked and me is self.main:
                 self.deadlocked = False
                 raise Deadlock(self._deadlock_msg())
+            if self.overdue and me is self.main:
+                self.overdue = False
+                raise Overdue("t=%.6f" % self.now)
             return
         if not final:
             self._leave(me)
@@ -162,6 +231,9 @@ class Sim:
             if self.deadlocked and me is self.main:
                 self.deadlocked = False
                 raise Deadlock(self._deadlock_msg())
+            if self.overdue and me is self.main:
+                self.overdue = False
+                raise Overdue("t=%.6f" % self.now)
 
     def _deadlock_msg(self):
         blocked = [(t.name, t.blocked_on) for t in self.tasks if not t.done]
@@ -196,8 +268,9 @@ class Sim:
 
     def spawn(self, name, fn, args):
         t = Task(self, name, fn, args)
-        t.np_state = np.random.get_state()
-        t.py_state = random.getstate()
+        self._leave(self.current)  # refresh the parent's copies; the child inherits them (fork)
+        t.np_state = self.current.np_state
+        t.py_state = self.current.py_state
         t.thread = threading.Thread(target=t._run, daemon=True, name="sim-" + name)
         t.thread.start()
         self.tasks.append(t)
